@@ -155,7 +155,7 @@ fn main() {
             let gs = grammars();
             let v: Vec<Value> = gs
                 .iter()
-                .map(|g| json!({"name": g.name, "rules": g.entries.iter().map(|e| json!({"rule": e.rule, "kind": format!("{:?}", e.kind)})).collect::<Vec<_>>(), "seeds": g.seeds.len()}))
+                .map(|g| json!({"name": g.name, "rules": g.entries.iter().map(|e| json!({"rule": e.rule, "kind": format!("{:?}", e.kind), "rep_skip": e.rep_skip})).collect::<Vec<_>>(), "seeds": g.seeds.len()}))
                 .collect();
             println!("{}", serde_json::to_string(&v).unwrap());
             0
